@@ -168,7 +168,9 @@ package minersc
 // (C38) when the selection dropped every sharder of the previous set, the best-ranked previous sharder
 // of the keep list is added back: that statement must not be dead code
 //@   reachable[adds-back-a-previous-sharder] "nodes = append(nodes, prev[0])"
-//@   ensures[keeps-a-previous-sharder] err == nil ==> (exists k in 0..len(nodes) :: nodes[k].SimpleNode.ID in asptr(lfmbOf(balances), block.Block).MagicBlock.Sharders.NodesMap)
+// (stated as "one of the others, or the last one": the last entry is the one the add-back appends, which
+// hands the solver its witness - the plain existential took 17 s and timed out on a loaded machine)
+//@   ensures[keeps-a-previous-sharder] err == nil ==> len(nodes) > 0 && ((exists k in 0..len(nodes)-1 :: nodes[k].SimpleNode.ID in asptr(lfmbOf(balances), block.Block).MagicBlock.Sharders.NodesMap) || nodes[len(nodes)-1].SimpleNode.ID in asptr(lfmbOf(balances), block.Block).MagicBlock.Sharders.NodesMap)
 //@   opaque reduce
 //@   at-call reduce ghost $reduceCalls += 1
 //@   at-call reduce assert[limits-in-force-now] $arg1 == gn.MaxS && $arg2 == gn.XPercent
